@@ -141,6 +141,16 @@ func (f *frame) libCall(callee *ssa.Function, c *ssa.CallCommon, base string, re
 		f.assume(fmt.Sprintf("(=> (and (not (= (slen %s) #x0000000000000000)) (bvult (sbyte %s #x0000000000000000) #x80)) (and (= %s #x0000000000000001) (= %s ((_ zero_extend 24) (sbyte %s #x0000000000000000)))))", s, s, w, rn, s))
 		f.assume(fmt.Sprintf("(=> (and (not (= (slen %s) #x0000000000000000)) (bvuge (sbyte %s #x0000000000000000) #x80)) (bvsge %s #x00000080))", s, s, rn))
 		return r
+	case "unicode/utf8.EncodeRune":
+		used("EncodeRune writes the UTF-8 encoding of the rune into p and returns the number of bytes written, 1..4 (p must be large enough: not modelled)")
+		w := map[string]bool{}
+		k, _ := e.elemHeapKey(types.Typ[types.Uint8])
+		w[k] = true
+		f.escape(c.Args[0])
+		f.havocKeys(w)
+		r := f.resultHavoc(base, resT)
+		f.assume(fmt.Sprintf("(and (bvsle #x0000000000000001 %s) (bvsle %s #x0000000000000004))", r.term, r.term))
+		return r
 	case "unicode/utf8.RuneLen":
 		used("RuneLen returns the number of bytes (1..4) in the UTF-8 encoding of the rune, or -1 if invalid")
 		r := f.resultHavoc(base, resT)
@@ -355,6 +365,16 @@ func (f *frame) libCall(callee *ssa.Function, c *ssa.CallCommon, base string, re
 		r := f.resultHavoc(base, resT)
 		a := arg(0)
 		f.assume(fmt.Sprintf("(and (bvsle (sl-len %s) (sl-len %s)) (=> (bvsgt (sl-len %s) #x0000000000000000) (bvsgt (sl-len %s) #x0000000000000000)))", r.term, a, a, r.term))
+		// a single code unit that is not a surrogate decodes to itself
+		{
+			k16, s16 := e.elemHeapKey(types.Typ[types.Uint16])
+			k32, s32 := e.elemHeapKey(types.Typ[types.Int32])
+			u := fmt.Sprintf("(select (select %s (sl-ref %s)) (sl-off %s))", e.heapGet(f.curHeap, k16, s16), a, a)
+			// the result lives in a fresh array: constrain its first element through a fresh heap version
+			cur := e.heapGet(f.curHeap, k32, s32)
+			first := fmt.Sprintf("(select (select %s (sl-ref %s)) (sl-off %s))", cur, r.term, r.term)
+			f.assume(fmt.Sprintf("(=> (and (= (sl-len %s) #x0000000000000001) (or (bvult %s #xd800) (bvugt %s #xdfff))) (and (= (sl-len %s) #x0000000000000001) (= %s ((_ zero_extend 16) %s))))", a, u, u, r.term, first, u))
+		}
 		return r
 	}
 	// default: unknown library function – result havocked, write set by argument kinds
